@@ -29,6 +29,8 @@ type ascript struct {
 	Senders   int              `json:"senders"`
 	Steer     bool             `json:"steer"`
 	Order     []int            `json:"order,omitempty"`
+	// Shutdown: "" / "close" = Close(); "asyncclose" = AsyncClose(), then wait until Successes() and Errors() are closed
+	Shutdown string `json:"shutdown,omitempty"`
 }
 
 type obsAsync struct {
@@ -154,8 +156,12 @@ func runAsync1(s ascript) (obsAsync, []msg) {
 			submitted = nil
 		}
 	}
-	_ = mp.Close()
-	wg.Wait()
+	if s.Shutdown == "asyncclose" {
+		mp.AsyncClose()
+	} else {
+		_ = mp.Close()
+	}
+	wg.Wait() // both result channels are closed: the dispatcher has finished its loop
 	for _, l := range rep.logs {
 		o.Reports = append(o.Reports, classify(l))
 	}
@@ -199,6 +205,9 @@ func genAsync(r *rand.Rand) ascript {
 	ne, nm := r.Intn(7), r.Intn(8)
 	if r.Intn(3) == 0 {
 		ne = nm
+	}
+	if r.Intn(2) == 0 {
+		s.Shutdown = "asyncclose"
 	}
 	s.Exps = genExps(r, ne)
 	for i := 0; i < nm; i++ {
@@ -323,8 +332,11 @@ func monitorAsync(s ascript, o obsAsync, arrival []msg) *cf.Monitor {
 			wantErr = append(wantErr, [2]int64{m.ID, e})
 		}
 	}
-	if len(s.Exps) > len(arrival) {
+	if len(s.Exps) > len(arrival) { // in both shutdown styles
 		wantRep = append(wantRep, fmt.Sprintf("(RepLeftOver %d)", len(s.Exps)-len(arrival)))
+		if s.Shutdown == "asyncclose" && !strsEq(wantRep, o.Reports) && len(o.Reports) == len(wantRep)-1 && strsEq(wantRep[:len(wantRep)-1], o.Reports) {
+			return &cf.Monitor{Signature: "async:leftover-not-reported-after-asyncclose", What: fmt.Sprintf("%d expectations left over, AsyncClose() + both channels closed, reporter calls %v", len(s.Exps)-len(arrival), o.Reports)}
+		}
 	}
 	if fmt.Sprint(wantSucc) != fmt.Sprint(o.Succ) || fmt.Sprint(wantErr) != fmt.Sprint(o.Errs) {
 		return &cf.Monitor{Signature: "async:wrong-outcome", What: fmt.Sprintf("want successes %v errors %v, got %v %v", wantSucc, wantErr, o.Succ, o.Errs)}
@@ -347,6 +359,8 @@ func asyncCorpus() []ascript {
 		{Mode: "async", RetSucc: true, RetErr: true, DefParts: 32, Overrides: map[string]int32{}, Senders: 1, Exps: []exp{{Succ: true, Chk: 2, CErr: 201}}, Msgs: []msg{{ID: 1, POk: true, P: 3}}},
 		{Mode: "async", RetSucc: true, RetErr: true, DefParts: 32, Overrides: map[string]int32{"t1": 4}, Senders: 1, Exps: []exp{{Succ: true}, {Succ: false, Err: 101}, {Succ: true}}, Msgs: []msg{{ID: 1, Topic: 1, POk: true, P: 2}}},
 		{Mode: "async", RetSucc: true, RetErr: true, DefParts: 32, Overrides: map[string]int32{}, Senders: 1, Exps: nil, Msgs: []msg{{ID: 1, POk: true, P: 2}, {ID: 2, POk: false, PErr: 301}}},
+		// left-over expectations with the AsyncClose + wait-for-channels shutdown (seeded change C20-5 moved the report into Close())
+		{Mode: "async", RetSucc: true, RetErr: true, DefParts: 32, Overrides: map[string]int32{}, Senders: 1, Shutdown: "asyncclose", Exps: []exp{{Succ: true}, {Succ: false, Err: 101}}, Msgs: []msg{{ID: 1, POk: true, P: 2}}},
 		// two senders, steered interleaving B A B A, a checker failure and a partitioner failure in the middle
 		{Mode: "async", RetSucc: true, RetErr: true, DefParts: 8, Overrides: map[string]int32{}, Senders: 2, Steer: true, Order: []int{1, 0, 1, 0},
 			Exps: []exp{{Succ: true}, {Succ: true, Chk: 2, CErr: 202}, {Succ: false, Err: 103}, {Succ: true, Chk: 1}},
@@ -363,7 +377,11 @@ func asyncCase(s ascript) (string, cf.Sidecar) {
 	for _, x := range o.Errs {
 		er = append(er, fmt.Sprintf("(%s, %s)", cf.Z(x[0]), cf.Z(x[1])))
 	}
-	term := fmt.Sprintf("{| ac_cfg := {| ret_succ := %s; ret_err := %s |}; ac_def := %d; ac_over := %s; ac_exps := %s; ac_msgs := %s; ac_succ := %s; ac_errs := %s; ac_reports := %s; ac_np := %s; ac_ctor := %s; ac_checks := %s; ac_final := %s |}",
+	sd := "ShClose"
+	if s.Shutdown == "asyncclose" {
+		sd = "ShAsyncClose"
+	}
+	term := fmt.Sprintf("{| ac_cfg := {| ret_succ := %s; ret_err := %s |}; ac_sd := "+sd+"; ac_def := %d; ac_over := %s; ac_exps := %s; ac_msgs := %s; ac_succ := %s; ac_errs := %s; ac_reports := %s; ac_np := %s; ac_ctor := %s; ac_checks := %s; ac_final := %s |}",
 		cf.Bool(s.RetSucc), cf.Bool(s.RetErr), s.DefParts, coqOverrides(s.Overrides), coqExps(s.Exps), coqMsgs(arrival), cf.List(su), cf.List(er), cf.List(o.Reports), coqZ3s(o.NP), cf.ZList(o.Ctors), coqZ2s(o.Checks), coqZ2s(o.Final))
 	kind := "async"
 	if s.Senders == 2 {
